@@ -228,14 +228,14 @@ def worker(wi, queue, resf):
 
 
 GROUPS = [
-    ('x/xibc/clients/', ['C07', 'C08', 'C09', 'C10', 'C13', 'C15', 'C18', 'C19', 'C02', 'C06', 'C14']),
-    ('x/xibc/core/client', ['C06', 'C07', 'C13', 'C15', 'C18', 'C19', 'C09', 'C10', 'C14']),
-    ('x/xibc/core/packet', ['C01', 'C02', 'C03', 'C04', 'C05', 'C06', 'C13', 'C19', 'C14']),
-    ('x/xibc/', ['C01', 'C02', 'C03', 'C04', 'C05', 'C06', 'C13', 'C18', 'C19', 'C15', 'C14']),
-    ('x/aggregate', ['C11', 'C12', 'C13', 'C15', 'C16', 'C03', 'C06', 'C14']),
-    ('x/rvesting', ['C20', 'C15', 'C13', 'C14']),
-    ('adapter', ['C17', 'C14']),
-    ('syscontracts', ['C17', 'C03', 'C04', 'C14']),
+    ('x/xibc/clients/', ['C07', 'C08', 'C09', 'C10', 'C13', 'C15', 'C18', 'C19', 'C02', 'C06']),
+    ('x/xibc/core/client', ['C06', 'C07', 'C13', 'C15', 'C18', 'C19', 'C09', 'C10']),
+    ('x/xibc/core/packet', ['C01', 'C02', 'C03', 'C04', 'C05', 'C06', 'C13', 'C19']),
+    ('x/xibc/', ['C01', 'C02', 'C03', 'C04', 'C05', 'C06', 'C13', 'C18', 'C19', 'C15']),
+    ('x/aggregate', ['C11', 'C12', 'C13', 'C15', 'C16', 'C03', 'C06']),
+    ('x/rvesting', ['C20', 'C15', 'C13']),
+    ('adapter', ['C17']),
+    ('syscontracts', ['C17', 'C03', 'C04']),
     ('app/', ['C14', 'C16', 'C17', 'C20', 'C13', 'C15', 'C11']),
 ]
 
@@ -303,6 +303,10 @@ def recheck(workers):
         done = {json.loads(l)['n'] for l in open(rp)}
     queue = [json.loads(l) for l in open(os.path.join(OUT, 'results.jsonl'))]
     queue = [m for m in queue if m['status'] == 'SURVIVOR' and m['n'] not in done]
+    # error-path guards (`if err != nil {` made dead / inverted) only matter when the guarded call fails: almost all are
+    # unreachable with valid state - they are listed as survivors but not re-run
+    import re as _re
+    queue = [m for m in queue if not _re.search(r'(^if err != nil \{$)|(; err != nil \{$)|(^if !ok \{$)', m['before'])]
     print('survivors to recheck:', len(queue))
     resf = open(rp, 'a')
     ts = [threading.Thread(target=recheck_worker, args=(i, queue, resf)) for i in range(workers)]
